@@ -1225,6 +1225,11 @@ class EqWorld(BaseWorld):
                         'lle': ['fixed_point', 'IQ_interpolation'],
                         'sle': ['aitken'],
                         'vlle': ['fixed_point', 'aitken', 'IQ_interpolation', 'aitken_secant']}[op]
+        if self.prop == 'C04' and op == 'vle' and WEGSTEIN_REGION in self.regions:
+            # listed finding KF-C04-6: a failing inner wegstein iteration sends DewPoint.solve_Tx / solve_Px into an
+            # IQ fallback that returns the end of its bracket; the flash built on it is wrong without any error
+            solver_sites = [x for x in solver_sites if x != 'wegstein']
+            self.stats['region:' + WEGSTEIN_REGION] += 1
         exc = r.choice(['RuntimeError', 'RuntimeError', 'InfeasibleRegion', 'ValueError', 'FloatingPointError'])
         if model_sites and r.random() < 0.5:
             return {'kind': 'model_error', 'site': r.choice(model_sites), 'nth': r.choice([1, 1, 2, 2, 3, 4, 6, 9]),
@@ -1254,6 +1259,10 @@ class EqWorld(BaseWorld):
             return True
         name = ev.get('stream')
         if name not in self.streams:
+            return False
+        f_ = ev.get('fault')
+        if (f_ and self.prop == 'C04' and op == 'vle' and f_.get('kind') == 'solver_fail'
+                and f_.get('site') == 'wegstein' and WEGSTEIN_REGION in self.regions):
             return False
         pk = self.pk(name)
         s = self.streams[name]
@@ -2184,6 +2193,7 @@ def _stored(world, ev, key):
 
 BASELINE_REGION = 'C04-fresh-baseline-miss'
 CAP_REGION = 'C04-silent-iteration-cap'
+WEGSTEIN_REGION = 'C04-dew-fallback-after-wegstein-error'
 LEVER_REGION = 'C03-lever-rule-clip'
 
 REGIONS = {
